@@ -11,6 +11,7 @@ import (
 	"sync/atomic"
 	"time"
 
+	"go.sia.tech/core/gateway"
 	"go.sia.tech/core/types"
 	"verif/harness/lab/chainlab"
 	"verif/harness/lab/p2plab"
@@ -43,6 +44,11 @@ type clusterCase struct {
 	Special       string          `json:"special,omitempty"`
 	InitialTarget byte            `json:"initial_target_first_byte"`
 	FreshGap      int             `json:"fresh_checkpoint_gap,omitempty"`
+	// HeaderBatch > 0: the winner is held by an honest lab peer (index N) that
+	// answers SendHeaders with at most HeaderBatch headers and the correct
+	// remaining count; it announces its tip once and never re-announces
+	HeaderBatch int `json:"lab_peer_header_batch,omitempty"`
+	LabGap      int `json:"lab_peer_gap,omitempty"`
 }
 
 var c12Lens = []int{0, 1, 2, 9, 10, 11, 12, 16, 24, 40}
@@ -97,6 +103,7 @@ func runC12(r *mon.Run, replay string) {
 	r.Floor("manager_calls_audited:AddBlocks", 20)
 	r.Floor("manager_calls_audited:AddValidatedV2Blocks", 5)
 	r.Floor("reorgs_observed", 10)
+	r.Floor("short_header_batches_served", int64(r.Pick(12, 200)))
 }
 
 var c12FreshGaps = []int{3, 9, 10, 11, 12, 13, 14, 15, 16, 20, 23, 24, 40}
@@ -148,6 +155,8 @@ func genFreshCheckpoint(r *mon.Run, stream uint64) (clusterCase, *chainlab.Tree,
 // c12SpecialFor maps a case index to its sub-family.
 func c12SpecialFor(i int) string {
 	switch i % 10 {
+	case 1: // sync distance larger than one header batch (honest lab peer serving short SendHeaders batches)
+		return "shortheaders"
 	case 3: // the winner's branch length sweeps the 100-block request split
 		return "long"
 	case 5: // long trunk above the require height, some nodes bootstrapped from a checkpoint
@@ -195,7 +204,81 @@ func genTipGap(r *mon.Run, stream uint64, special string) (clusterCase, *chainla
 	return cc, t, tips, make([]*chainlab.Node, 3)
 }
 
+// genShortHeaders: one or two real nodes lag 30..60 blocks behind an honest lab
+// peer that holds the heaviest chain and serves it in short header batches.
+func genShortHeaders(r *mon.Run, stream uint64) (clusterCase, *chainlab.Tree, []*chainlab.Node, []*chainlab.Node) {
+	rng := r.RNG(stream)
+	regime := []string{"mix", "mix", "v2only", "v1only"}[rng.IntN(4)]
+	p := chainlab.RandomParams(regime, rng)
+	env := chainlab.NewEnv(p)
+	itarget := []byte{0x08, 0x10, 0x40, 0xFF}[rng.IntN(4)]
+	env.Net.InitialTarget = types.BlockID{itarget}
+	t := chainlab.NewTree(env, rng)
+	prof := chainlab.Profile{MaxTxns: 3}
+	cc := clusterCase{Stream: stream, Regime: regime, Params: p, Special: "shortheaders", InitialTarget: itarget, Topology: "line", Cap: 8}
+	A, R := int(p.Allow), int(p.Require)
+	switch regime {
+	case "mix":
+		// the common ancestor sits before / at / after the hardfork heights, the gap crosses them
+		cc.TrunkLen = max(1, []int{A - 3, A, R - 2, R, R + 2, R + 15}[rng.IntN(6)])
+	case "v1only":
+		cc.TrunkLen = 2 + rng.IntN(20)
+	default:
+		cc.TrunkLen = 1 + rng.IntN(20)
+	}
+	trunk := p2plab.GrowMixed(t, t.Root, cc.TrunkLen, 2, prof)
+	cc.N = 1 + rng.IntN(2)
+	cc.HeaderBatch = []int{7, 10}[rng.IntN(2)]
+	cc.LabGap = 30 + rng.IntN(31)
+	var tips []*chainlab.Node
+	for i := 0; i < cc.N; i++ {
+		depth := min(cc.TrunkLen, []int{0, 0, 1, 3}[rng.IntN(4)])
+		fork := trunk.Ancestor(trunk.Height - uint64(depth))
+		tips = append(tips, p2plab.GrowMixed(t, fork, []int{0, 1, 2, 9, 12}[rng.IntN(5)], 3, prof))
+	}
+	lab := p2plab.Heavier(t, p2plab.GrowMixed(t, trunk, cc.LabGap, 3, prof), 1, prof, tips...)
+	// a node always asks for headers from the common ancestor on its OWN best
+	// chain, so one header batch must already outweigh its fork; otherwise no
+	// round makes progress, which is inherent in the protocol (with real peers
+	// the batch is 10000 headers) and not what is examined here: such a node
+	// becomes a plain lagging node
+	for i, x := range tips {
+		anc := chainlab.CommonAncestor(x, lab)
+		probe := lab.Ancestor(min(lab.Height, anc.Height+uint64(cc.HeaderBatch)))
+		if !probe.State().SufficientlyHeavierThan(x.State()) {
+			tips[i] = anc
+		}
+	}
+	tips = append(tips, lab)
+	cc.Winner = cc.N
+	maxSend := []uint64{100, 100, 7, 1}[rng.IntN(4)]
+	// line: lab - n0 [- n1]; either side dials
+	order := [][2]int{{0, cc.N}}
+	if cc.N == 2 {
+		order = append(order, [2]int{1, 0})
+	}
+	for _, e := range order {
+		if rng.IntN(2) == 0 {
+			e[0], e[1] = e[1], e[0]
+		}
+		cc.Edges = append(cc.Edges, e)
+	}
+	rng.Shuffle(len(cc.Edges), func(i, j int) { cc.Edges[i], cc.Edges[j] = cc.Edges[j], cc.Edges[i] })
+	for i, x := range tips {
+		fh := chainlab.CommonAncestor(x, trunk).Height
+		bd := branchDesc{Node: i, ForkHeight: fh, Len: int(x.Height - fh), TipHeight: x.Height, TipNode: x.Idx, Checkpoint: -1, MaxSend: 100}
+		if i < cc.N {
+			bd.MaxSend = maxSend
+		}
+		cc.Branches = append(cc.Branches, bd)
+	}
+	return cc, t, tips, make([]*chainlab.Node, len(tips))
+}
+
 func genCluster(r *mon.Run, stream uint64, special string) (clusterCase, *chainlab.Tree, []*chainlab.Node, []*chainlab.Node) {
+	if special == "shortheaders" {
+		return genShortHeaders(r, stream)
+	}
 	if special == "freshcp" {
 		return genFreshCheckpoint(r, stream)
 	}
@@ -412,6 +495,30 @@ func runCluster(r *mon.Run, stream uint64, special string) {
 	for _, n := range nodes {
 		n.Start()
 	}
+	var lab *p2plab.Byz
+	if cc.HeaderBatch > 0 {
+		l, err := p2plab.NewByz("lab", p2plab.HonestIP(slot, 7), t, tips[cc.Winner])
+		if err != nil {
+			r.Inconclusive(fmt.Sprintf("C12 case %d: cannot build lab peer: %v", stream, err))
+			closeAll(r, nodes)
+			return
+		}
+		lab = l
+		defer lab.Close()
+		batch := cc.HeaderBatch
+		lab.OnSendHeaders = func(b *p2plab.Byz, rq *gateway.RPCSendHeaders) p2plab.Reply {
+			if !b.HonestHeaders(rq) {
+				return p2plab.Reply{}
+			}
+			if len(rq.Headers) > batch {
+				// legal: fewer headers than asked for, with the correct remaining count
+				rq.Remaining += uint64(len(rq.Headers) - batch)
+				rq.Headers = rq.Headers[:batch]
+				b.Count("short-header-batches", 1)
+			}
+			return p2plab.Reply{Obj: rq}
+		}
+	}
 	winner := tips[cc.Winner]
 	nontrivial := false
 	for i, x := range tips {
@@ -420,8 +527,22 @@ func runCluster(r *mon.Run, stream uint64, special string) {
 		}
 	}
 	// connect in the PRNG order with small gaps
+	connectLab := func(e [2]int) error {
+		if e[0] == cc.N {
+			return lab.Dial(nodes[e[1]].Addr)
+		}
+		return nodes[e[0]].Connect(lab.Addr)
+	}
 	for _, e := range cc.Edges {
 		time.Sleep(time.Duration(rng.IntN(30)) * time.Millisecond)
+		if lab != nil && (e[0] == cc.N || e[1] == cc.N) {
+			if err := connectLab(e); err != nil {
+				r.Count("initial_connect_errors", 1)
+			}
+			// the one and only announcement of the lab peer's tip
+			lab.Call(&gateway.RPCRelayV2Header{Header: winner.Block.Header()}, 2*time.Second)
+			continue
+		}
 		if err := nodes[e[0]].Connect(nodes[e[1]].Addr); err != nil {
 			r.Count("initial_connect_errors", 1)
 			msg := err.Error()
@@ -466,6 +587,15 @@ func runCluster(r *mon.Run, stream uint64, special string) {
 		// honest node dropping an honest peer is exactly what is under test there)
 		if iter%20 == 0 && cc.Special != "freshcp" {
 			for _, e := range cc.Edges {
+				if lab != nil && (e[0] == cc.N || e[1] == cc.N) {
+					real := nodes[e[0]+e[1]-cc.N]
+					if !real.HasPeer(lab.Addr) {
+						if connectLab(e) == nil {
+							r.Count("edges_redialled", 1)
+						}
+					}
+					continue
+				}
 				a, b := nodes[e[0]], nodes[e[1]]
 				if !a.HasPeer(b.Addr) && !b.HasPeer(a.Addr) {
 					if err := a.Connect(b.Addr); err == nil {
@@ -545,6 +675,13 @@ func runCluster(r *mon.Run, stream uint64, special string) {
 	if cc.Discovery {
 		r.Count("clusters_with_discovery", 1)
 	}
+	if lab != nil {
+		r.Count("clusters_with_short_header_batches", 1)
+		r.Count("short_header_batches_served", lab.Counter("short-header-batches"))
+		if converged {
+			r.Count("clusters_with_short_header_batches_converged", 1)
+		}
+	}
 	if cc.Special == "freshcp" {
 		r.Count("clusters_with_fresh_checkpoint_node", 1)
 		r.SetAdd("fresh_checkpoint_gaps", fmt.Sprint(cc.FreshGap))
@@ -600,6 +737,8 @@ func runCluster(r *mon.Run, stream uint64, special string) {
 			vsig += ":v1-tip-not-propagated-to-synced-peer"
 		} else if cc.Special == "freshcp" {
 			vsig += ":fresh-checkpoint-node"
+		} else if cc.Special == "shortheaders" {
+			vsig += ":short-header-batches"
 		} else if small {
 			vsig += ":max-send-blocks-below-100"
 		}
